@@ -140,7 +140,7 @@ def rule_init(ctx, rep, only=None):
                     why = None
                     for wbi, how, t2 in ws:
                         e0 = symx.expr(F, B, t2["args"][0] if how == "write" else t2["args"][1])
-                        in_loop = _mentions(e0, "induction")
+                        in_loop = _mentions(e0, "induction") or _in_cycle(B, wbi)
                         for mb in make_bbs:
                             if in_loop:
                                 # the loop (header = where the induction step lives) must dominate the construction
@@ -153,6 +153,10 @@ def rule_init(ctx, rep, only=None):
                         rep.bad("R-INIT", ik, why, F.loc(b), tag)
     if not only:
         rep.floor("R-INIT", 8, "payload fields of the six allocation-to-handle regions")
+
+
+def _in_cycle(B, bi):
+    return any(bi in B.reach(s, normal_only=True) for s in B._succ_normal[bi])
 
 
 def _mentions(e, kind):
@@ -170,6 +174,9 @@ def _field_path_of(d, alloc_term, data_name):
             d = nobb(d[1])
             continue
         if d[0] == "call" and d[2] in ("as_mut_ptr", "as_ptr") and d[3]:
+            d = d[3][0]
+            continue
+        if d[0] == "call" and d[2] in ("add", "offset", "wrapping_add") and len(d[3]) == 2:
             d = d[3][0]
             continue
         break
@@ -213,15 +220,7 @@ def rule_lenflow(ctx, rep):
                             ok, why = False, "the bulk copy moves %s elements but the block was sized for %s" % (symx.show(n), symx.show(L))
                         if not (src[0] == "call" and src[2] in ("as_ptr", "as_mut_ptr") and _rooted_at_arg(src[3][0], 2)):
                             ok, why = False, "the bulk copy does not read from the start of the input container (%s)" % symx.show(src)
-                else:
-                    # loop bound: Range(0, L)
-                    ranges = []
-                    for bl in b["blocks"]:
-                        for s in bl["stmts"]:
-                            if s["k"] == "assign" and s["rv"]["k"] == "agg" and s["rv"].get("adt") == "core::ops::range::Range":
-                                ranges.append([nobb(symx.expr(F, B, o)) for o in s["rv"]["ops"]])
-                    if len(ranges) != 1 or ranges[0][0] != ("const", 0) or ranges[0][1] != L:
-                        ok, why = False, "the fill loop is not bounded by `0..<allocation length>` (ranges: %s; length %s)" % ([[symx.show(x) for x in r] for r in ranges], symx.show(L))
+                # (the bound of the iterator constructor's fill loop is judged by R-ITERLOOP's loop model)
                 if ok:
                     rep.ok("R-LENFLOW", ik, symx.show(L), cfg=tag)
                 else:
@@ -368,23 +367,30 @@ def _uses(b, l):
 
 
 def rule_iterloop(ctx, rep):
+    """The fill loop of the iterator constructor, judged against a small model of accepted loop families (analysis/fillloop.py)."""
+    from .. import fillloop
+
     for tag, F, E in ctx.each():
+        A = balance.analysis(tag, F, E)
         for b in F.method("Arc", "from_header_and_iter"):
             B = cfg.Body(b)
-            # loop blocks: those on a cycle
-            loop = set()
-            for i in range(B.n):
-                for s in B._succ_normal[i]:
-                    if i in B.reach(s, normal_only=True):
-                        loop.add(i)
-            nexts = [bi for bi, t in B.calls() if bi in loop and t.get("callee") == "core::iter::traits::iterator::Iterator::next" and t.get("resolved") == "unresolved"]
-            writes = [bi for bi, t in B.calls() if bi in loop and atomics.callee_of(t) in ("core::ptr::write", "<*mut T>::write")]
-            steps = [(bi, t) for bi, t in B.calls() if bi in loop and atomics.callee_of(t) in ("<*mut T>::offset", "<*mut T>::add")]
-            ok = len(nexts) == 1 and len(writes) == 1 and len(steps) == 1 and B.const_value(steps[0][1]["args"][1]) == 1
-            if ok:
-                rep.ok("R-ITERLOOP", b["key"], cfg=tag)
-            else:
-                rep.bad("R-ITERLOOP", b["key"], "each iteration of the fill loop must take exactly one item, write exactly one slot and advance the cursor by one (found %d `next`, %d writes, %d cursor steps)" % (len(nexts), len(writes), len(steps)), F.loc(b), tag)
+            regs = alloc_regions(F, E, b, B)
+            if len(regs) != 1:
+                rep.bad("R-ITERLOOP", b["key"], "expected exactly one allocation in the constructor", F.loc(b), tag)
+                continue
+            L = symx.expr(F, B, regs[0][0]["args"][0])
+            make_bbs = set()
+            for p in A.paths[b["key"]]:
+                for e in p.events:
+                    if e["kind"] == "MAKE" and vget(e["vec"], "make_agg"):
+                        make_bbs.add(e["bb"])
+            viol, unsup, info = fillloop.analyse(F, E, b, L, make_bbs)
+            for suffix, msg, span in viol:
+                rep.bad("R-ITERLOOP", "%s/%s" % (b["key"], suffix), msg, F.loc(b, span), tag)
+            for msg in unsup:
+                rep.bad("UNSUPPORTED-SHAPE", "%s/fill-loop" % b["key"], "cannot decide the fill loop (fail closed): " + msg, F.loc(b), tag)
+            if not viol and not unsup:
+                rep.ok("R-ITERLOOP", b["key"], "sources %s" % info.get("sources"), cfg=tag)
     rep.floor("R-ITERLOOP", 1, "the iterator constructor's loop")
 
 
